@@ -77,6 +77,10 @@ def build(spec):
         return lambda shape: np.array(data)
 
     def val(v):
+        if v[0].startswith("arr_"):
+            return np.asarray(v[1], dtype={"arr_i": np.int64, "arr_f": np.float64, "arr_b": np.bool_, "arr_i32": np.int32}[v[0]])
+        if v[0] == "tuple_f":
+            return tuple(float(i) for i in v[1])
         return {"int": int, "float": float, "bool": bool, "npint": np.int64, "tuple": tuple, "list": list}[v[0]](v[1])
     return [arg(a) for a in spec["args"]], {k: val(v) for k, v in spec["kwargs"].items()}
 
@@ -201,9 +205,28 @@ def solve_spec(c, rng):
     return {"fn": fn, "desc": desc, "args": args, "kwargs": {k: ("int", v) for k, v in c.size_kwargs().items()}, "graph": False, "backend": None, "blocks": []}
 
 
+def sequence_kw_family(rng):
+    """one call with per-repetition sizes, the sizes given as equal-valued sequences of different kinds (tuple / list / int, float
+    and bool arrays / tuple of floats): equal under ==, different for einx"""
+    n = rng.randint(1, 3)
+    inner = [rng.choice([1, 2, 3]) for _ in range(n)]
+    outer = [rng.choice([1, 2]) for _ in range(n)]
+    x = np.arange(int(np.prod([i * o for i, o in zip(inner, outer)]))).reshape([i * o for i, o in zip(inner, outer)])
+    fn, desc = rng.choice([("id", "(a b)... -> a... b..."), ("id", "(a b)... -> b... a..."), ("sum", "(a [b])..."), ("solve_axes", "(a b)...")])
+    kinds = ["tuple", "list", "arr_i", "arr_i32", "arr_f", "tuple_f"] + (["arr_b"] if all(i == 1 for i in inner) else [])
+    out = []
+    for kind in rng.sample(kinds, rng.randint(3, len(kinds))):
+        out.append({"fn": fn, "desc": desc, "args": [("arr", x.tolist(), str(x.dtype))], "kwargs": {"b": (kind, inner)}, "graph": False,
+                    "backend": None, "blocks": []})
+    out.append(dict(out[0]))
+    return out
+
+
 def gen_history(rng):
     base = [gencalls.gen_call(rng) for _ in range(rng.randint(2, 4))]
     h = []
+    if rng.random() < 0.5:
+        h.extend(sequence_kw_family(rng))
     for c in base:
         variants = [spec_of_call(c, rng)]
         variants.append(spec_of_call(c, rng, graph=True))
